@@ -17,8 +17,8 @@ from vt.monitors import contracts, prng
 
 ID = 'C14'
 TIERS = {
-    'quick': dict(shards=16, cases=90, watchdog_s=900),
-    'thorough': dict(shards=16, cases=3800, big=1, watchdog_s=6000),
+    'quick': dict(shards=16, cases=300, watchdog_s=900),
+    'thorough': dict(shards=16, cases=8000, big=1, watchdog_s=6000),
 }
 RULE = ('case = history of ~25 extractions over one multiset: forms {list, 2 permutations, reversed, dict, dict in '
         'another insertion order, Series, one example repeated} x prior PRNG states x {seed, no seed}, with '
